@@ -44,7 +44,7 @@ PRETEXTS = [
     ("# Rule: ", "# RULE: "),
     ("# rule: ", "# Rule: info: "),
 ]
-NAME_ALPHA = ["abcdefghijklmnopqrstuvwxyz0123456789", " ", "éüß€日本𝔘", ".-_@!?()[]{}*+=/", "ABCXYZ", "#:;,\"\\'|<>~"]
+NAME_ALPHA = ["abcdefghijklmnopqrstuvwxyz0123456789", " ", "éüß€日本𝔘", ".-_@!?()[]{}*+=/", "ABCXYZ", "#:;,\"\\'|<>~", "e\u0301\u212b\u2126\ufb01"]
 
 
 def gen_label(f, label, minlen=1, maxlen=10):
